@@ -12356,8 +12356,16 @@ class TensorDictBase(MutableMapping):
             from tensordict._td import TensorDict
 
             cls = TensorDict
+        def field(name):
+            # a field of a packed record may be strided by a non-multiple of its item size: torch cannot
+            # view it without a copy
+            arr = struct_array[name]
+            if any(stride % arr.itemsize for stride in arr.strides):
+                arr = arr.copy()
+            return arr
+
         td = cls(
-            {name: struct_array[name] for name in struct_array.dtype.names},
+            {name: field(name) for name in struct_array.dtype.names},
             batch_size=struct_array.shape if batch_size is None else batch_size,
             device=device,
         )
